@@ -69,7 +69,7 @@ def main(argv) -> int:
         blob = b"".join(hashlib.blake2b(b"%d:%d:%d" % (seed, i, k), digest_size=64).digest() for k in range(64 if i % 2 else 16))
         with open(os.path.join(outdir, "corpus", "seed%d" % i), "wb") as fh:
             fh.write(blob if i % 4 else bytes(len(blob)))
-    atheris.Setup([sys.argv[0], f"-runs={runs}", f"-seed={seed if seed else 1}", "-max_len=8192", "-len_control=0", "-print_final_stats=0", "-verbosity=0", os.path.join(outdir, "corpus")], target.hypothesis.fuzz_one_input)
+    atheris.Setup([sys.argv[0], f"-runs={runs}", f"-seed={seed if seed else 1}", "-max_len=8192", "-len_control=0", "-print_final_stats=0", "-verbosity=0", "-artifact_prefix=" + os.path.join(outdir, "artifact-"), "-report_slow_units=600", os.path.join(outdir, "corpus")], target.hypothesis.fuzz_one_input)
     with open(cpath, "w") as fh:
         json.dump(counter, fh)
     atheris.Fuzz()
